@@ -3032,3 +3032,98 @@ def gen_decorate(lib_dir: str, header: str) -> str:
     out += "".join("  " + l + "\n" for l in lines)
     out += "\nend Dltype.Gen\n"
     return out
+
+
+# =====================================================================================================================
+# TensorTypeBase.__get_pydantic_core_schema__ (everything after the validator is defined)  ->  Generated/PydHook.lean
+# =====================================================================================================================
+
+PYDHOOK_ATOMS = {
+    "_deps.is_numpy_available()": "(some numpyAvailable)",
+    # `np` is only bound when numpy could be imported: evaluating this test without numpy is a NameError
+    "typing.get_origin(source_type) is np.ndarray": "(if numpyAvailable then some isNdarray else none)",
+    "self.DTYPES": "(some hasDtypes)",
+    "any((dtype not in self.DTYPES for dtype in dtypes))": "(some (declared.any (fun d => !member d)))",
+}
+PYDHOOK_HEADER = """/-- what the hook does with one annotated field at class-definition time -/
+inductive SchemaOutcome
+  | rejectDtype                      -- DLTypeDtypeError naming the field
+  | schema (ndarrayInstance : Bool)  -- a schema is returned (an `isinstance(np.ndarray)` schema for numpy array types)
+  | nameError                        -- `np` evaluated although numpy could not be imported
+  deriving DecidableEq, Repr
+
+/-- short-circuit `and` / `or` / `not` over tests that may fail to evaluate (`none`) -/
+def andS (a : Option Bool) (b : Option Bool) : Option Bool :=
+  match a with | some false => some false | some true => b | none => none
+def orS (a : Option Bool) (b : Option Bool) : Option Bool :=
+  match a with | some true => some true | some false => b | none => none
+def notS (a : Option Bool) : Option Bool := a.map (!·)
+
+"""
+
+
+def gen_pydhook(lib_dir: str, header: str) -> str:
+    with open(os.path.join(lib_dir, "_tensor_type_base.py")) as fh:
+        mod = ast.parse(fh.read(), filename="_tensor_type_base.py")
+    f = _find_method(mod, "TensorTypeBase", "__get_pydantic_core_schema__")
+    if [a.arg for a in f.args.args] != ["self", "source_type", "handler"]:
+        raise TErr("__get_pydantic_core_schema__: parameters")
+    b = _strip(f.body)
+    if not (b and isinstance(b[0], ast.FunctionDef) and b[0].name == "validate_tensor"):
+        raise TErr("__get_pydantic_core_schema__: does not start with the definition of validate_tensor")
+    rest = b[1:]
+
+    def cond(e) -> str:
+        if isinstance(e, ast.BoolOp):
+            fn = "andS" if isinstance(e.op, ast.And) else "orS"
+            t = cond(e.values[-1])
+            for v in reversed(e.values[:-1]):
+                t = f"({fn} {cond(v)} {t})"
+            return t
+        if isinstance(e, ast.UnaryOp) and isinstance(e.op, ast.Not):
+            return f"(notS {cond(e.operand)})"
+        t = PYDHOOK_ATOMS.get(_src(e))
+        if t is None:
+            raise TErr(f"__get_pydantic_core_schema__: condition `{_src(e)[:100]}`")
+        return t
+
+    RET = "return core_schema.with_info_after_validator_function(validate_tensor, schema=core_schema.is_instance_schema(source_type), field_name=handler.field_name)"
+    RAISE = "raise _errors.DLTypeDtypeError(tensor_name=handler.field_name, expected=self.DTYPES, received=dtypes)"
+
+    def block(stmts, nd: str, have_dtypes: bool) -> str:
+        """`nd` = Lean Bool: source_type has been replaced by np.ndarray"""
+        if not stmts:
+            raise TErr("__get_pydantic_core_schema__: falls off the end")
+        s = stmts[0]
+        src = _src(s)
+        if src == "source_type = unwrap_type_alias(source_type)":
+            return block(stmts[1:], nd, have_dtypes)
+        if src == "dtypes = _resolve_numpy_dtype(source_type)":
+            return block(stmts[1:], nd, True)
+        if src == "source_type = np.ndarray":
+            return block(stmts[1:], "true", have_dtypes)
+        if src == RET:
+            return f".schema {nd}"
+        if src == RAISE:
+            if not have_dtypes:
+                raise TErr("__get_pydantic_core_schema__: `dtypes` used before it is computed")
+            return ".rejectDtype"
+        if isinstance(s, ast.If) and not s.orelse:
+            c = cond(s.test)
+            if "declared" in c and not have_dtypes:
+                raise TErr("__get_pydantic_core_schema__: `dtypes` tested before it is computed")
+            inner = list(s.body)
+            # does the branch leave (raise / return) or fall through to the statements after the `if`?
+            leaves = isinstance(inner[-1], (ast.Raise, ast.Return))
+            then = block(inner + ([] if leaves else stmts[1:]), nd, have_dtypes)
+            els = block(stmts[1:], nd, have_dtypes)
+            return f"(match {c} with\n    | none => .nameError\n    | some true => {then}\n    | some false => {els})"
+        raise TErr(f"__get_pydantic_core_schema__: statement `{src[:120]}`")
+
+    body = block(rest, "false", False)
+    out = header
+    out += "import DltypeModel.Check\nset_option linter.unusedVariables false\nnamespace Dltype.Gen\nopen Dltype\n\n" + PYDHOOK_HEADER
+    out += ("/-- `TensorTypeBase.__get_pydantic_core_schema__` after the validator is defined. `isNdarray` = the (unwrapped) base type is a numpy array\n"
+            "    type, `declared` = the scalar types it declares (`_resolve_numpy_dtype`), `hasDtypes` / `member` = the class's `DTYPES` -/\n")
+    out += "def schemaHook (numpyAvailable isNdarray hasDtypes : Bool) (member : DT → Bool) (declared : List DT) : SchemaOutcome :=\n  " + body + "\n\nend Dltype.Gen\n"
+    return out
